@@ -53,6 +53,6 @@ theorem InvD.pres_d2 {cfg : Cfg} {s s' : State} {l : Label} (hB : InvB s) (hC : 
   all_goals (try dsimp only)
   all_goals (try simp only [upd_upd_sub_root, upd_upd_root_sub])
   all_goals (grind (splits := 30) [upd, Root.kind, TS.active, TS.live, TS.ended, TS.isStopping, failTS, cancelSubs,
-    cancelRoots, Pend.ts, scBeforeCleanup, scLate, scEarly, stoppingPhase, G, grace])
+    cancelRoots, cancelRootsV, Pend.ts, scBeforeCleanup, scLate, scEarly, stoppingPhase, G, grace])
 
 end Kopf.C20
